@@ -601,15 +601,19 @@ class Mutations:
                 # TODO: Will need to modify when making multi-agent support more robust
                 # to different type sof settings (i.e. different observation spaces and thus
                 # network architectures for different agents)
+                # NOTE: networks are permutated in place, so only touch them if the
+                # mutation is going to be reported
                 if eval_module[0].activation is None:
                     no_activation = True
-
-                eval_module = [self._permutate_activation(mod) for mod in eval_module]
+                else:
+                    eval_module = [
+                        self._permutate_activation(mod) for mod in eval_module
+                    ]
             else:
                 if eval_module.activation is None:
                     no_activation = True
-
-                eval_module = self._permutate_activation(eval_module)
+                else:
+                    eval_module = self._permutate_activation(eval_module)
 
             if no_activation:
                 warnings.warn(
